@@ -1,6 +1,7 @@
 package props
 
 import (
+	"bytes"
 	"encoding/json"
 	"fmt"
 	"strings"
@@ -280,6 +281,70 @@ func c03Run(c *fw.Ctx) {
 			}
 		}
 	}
+	// size ladder: requests carrying a large argument (around every power of two
+	// and every change in the number of length digits), echoed back, between
+	// small requests; splits around every structural position of the stream
+	ladder := map[int]bool{}
+	for k := 6; k <= 16; k++ {
+		for d := -1; d <= 1; d++ {
+			ladder[1<<k+d] = true
+		}
+	}
+	for _, n := range []int{100, 1000, 10000} {
+		for d := -1; d <= 1; d++ {
+			ladder[n+d] = true
+		}
+	}
+	if c.Thorough() {
+		for d := -1; d <= 1; d++ {
+			ladder[1<<17+d], ladder[100000+d] = true, true
+		}
+	}
+	for _, L := range sortedInts(ladder) {
+		if !c.Mine() {
+			continue
+		}
+		if c.Expired() {
+			return
+		}
+		big := strings.Repeat("ab\r\n$1\r\n", L/8+1)[:L]
+		reqs := [][]string{{"PING"}, {"ECHO", big}, {"SET", "k", big}, {"ECHO", "x"}}
+		cs := c03Case{}
+		var marks []int
+		pos := 0
+		for _, r := range reqs {
+			b := grammar.Encode(r)
+			cs.Requests = append(cs.Requests, b)
+			cs.Labels = append(cs.Labels, fmt.Sprintf("%s|ladder-%d", r[0], len(r[len(r)-1])))
+			if i := bytes.Index(b, []byte(big)); L > 0 && len(r) > 1 && len(r[len(r)-1]) == L && i >= 0 {
+				marks = append(marks, pos+i, pos+i+L)
+			}
+			pos += len(b)
+			marks = append(marks, pos)
+		}
+		cand := map[int]bool{}
+		for _, m := range marks {
+			for d := -8; d <= 8; d++ {
+				if k := m + d; k > 0 && k < pos {
+					cand[k] = true
+				}
+			}
+		}
+		runCase(cs, true)
+		for _, k := range sortedInts(cand) {
+			cc := cs
+			cc.Splits = []int{k}
+			runCase(cc, true)
+		}
+		for _, st := range []int{1, 3, 4096, 32768} {
+			if st == 1 && L > 20000 && c.Quick() {
+				continue
+			}
+			cc := cs
+			cc.Stride = st
+			runCase(cc, true)
+		}
+	}
 	// the same request twice (and once more behind another request) against the
 	// bundled example store holding three elements of every type: whatever a
 	// request leaves behind in the process must not cost a later one its reply
@@ -307,6 +372,29 @@ func c03Run(c *fw.Ctx) {
 		c.Count("catalogue_requests", int64(len(cat)))
 		c.Count("representatives", int64(len(reps)))
 	}
+	quads := func() {
+		if c.Thorough() {
+			// pipelines of four requests over the representatives: whole, request-aligned, 1-byte
+			for _, a := range reps {
+				for _, b := range reps {
+					for _, d := range reps {
+						for _, e := range reps {
+							if !c.Mine() {
+								continue
+							}
+							if c.Expired() {
+								c.Cap("four-request pipelines stopped by the internal deadline")
+								return
+							}
+							cs := c03Case{Requests: [][]byte{a.Bytes, b.Bytes, d.Bytes, e.Bytes}, Labels: []string{a.Label, b.Label, d.Label, e.Label}}
+							scripts(cs, 0, false)
+						}
+					}
+				}
+			}
+		}
+	}
+	quads()
 }
 
 func c03Replay(raw json.RawMessage) (string, bool, error) {
@@ -326,7 +414,7 @@ func init() {
 	fw.Register(&fw.Prop{
 		ID:    "C03",
 		Level: "exploration",
-		Rule:  "request catalogue from the independent grammar: every registered command with its valid shapes (each option word at least once, list arities 1..3, lower-case name), one surplus-argument shape, every ill-formed shape of C10, unknown commands, handler errors, QUIT variants. Pipelines: every single request; all ordered pairs and triples over one representative per executor family + QUIT + unknown + argument error + handler error. Delivery: whole, EVERY 2-way split, 1-byte (singles, pairs; triples: whole, request-aligned, 1-byte; thorough: every 2-way split too). The reply/liveness invariant (#complete replies written == #complete requests delivered, in order, replies equal to the request's solo reply) is evaluated at every transport Read and at end of stream; a loop-iteration budget turns a spin into a verdict. Repeat part: every catalogue request (plus KEYS/SCAN MATCH with ill-formed and valid glob patterns) three times on one connection (X X PING X) against the bundled example store holding three elements per type, whole and 1-byte: one well-formed reply per request, PING answered at its position.",
+		Rule:  "request catalogue from the independent grammar: every registered command with its valid shapes (each option word at least once, list arities 1..3, lower-case name), one surplus-argument shape, every ill-formed shape of C10, unknown commands, handler errors, QUIT variants. Pipelines: every single request; all ordered pairs and triples over one representative per executor family + QUIT + unknown + argument error + handler error. Delivery: whole, EVERY 2-way split, 1-byte (singles, pairs; triples: whole, request-aligned, 1-byte; thorough: every 2-way split too, and all pipelines of four representatives whole, request-aligned and 1-byte). The reply/liveness invariant (#complete replies written == #complete requests delivered, in order, replies equal to the request's solo reply) is evaluated at every transport Read and at end of stream; a loop-iteration budget turns a spin into a verdict. Size ladder: the pipeline PING, ECHO <L bytes>, SET k <L bytes>, ECHO x for L = 2^k-1, 2^k, 2^k+1 (k=6..16, thorough 17) and 10^k-1..10^k+1 with frame-looking content: whole, every 2-way split within 8 bytes of each structural position (request boundaries, start and end of the large payload), strides 1/3/4096/32768. Repeat part: every catalogue request (plus KEYS/SCAN MATCH with ill-formed and valid glob patterns) three times on one connection (X X PING X) against the bundled example store holding three elements per type, whole and 1-byte: one well-formed reply per request, PING answered at its position.",
 		Assumptions: []string{
 			"replies are compared with the reply the same request gets when sent alone (stateless recording double with content-derived tokens)",
 			"pipelines longer than 3 are not explored",
